@@ -2,6 +2,7 @@ package main
 
 import (
 	"fmt"
+	stdslog "log/slog"
 	"strings"
 	"time"
 	_ "time/tzdata"
@@ -82,6 +83,9 @@ func layoutInfo(layout string) (prec time.Duration, invertible bool) {
 }
 
 func c16ts(c *Ctx) {
+	// the process's own zone is not UTC (containers usually run in UTC, users' machines do not): a record's instant is
+	// shown in ITS zone or in UTC, never in the process's
+	time.Local = time.FixedZone("PROC", 9*3600)
 	log := mon.NewLog()
 	w := mon.New(log, "W", mon.ShapePlain)
 	zones := append([]*time.Location(nil), gen.Zones...)
@@ -204,9 +208,35 @@ func c16ts(c *Ctx) {
 			lg = child
 			c.R.Add("cases_through_a_derived_logger_with_a_sibling", 1)
 		}
+		// the same settings given as options of New, each preceded by a conflicting one (the later option wins)
+		if derived == "-" && (layout != "" || utc != 0) && r.P(20) {
+			var opts []any
+			if layout != "" {
+				opts = append(opts, slog.WithTimeFormat(gen.Pick(r, c16layouts)), slog.WithTimeFormat(layout))
+			}
+			if utc != 0 {
+				opts = append(opts, slog.WithUTCMode(utc != 2), slog.WithUTCMode(utc == 2))
+			}
+			nl := slog.New(append([]any{"t16opt"}, opts...)...).Root()
+			nl.SetWriter(w).SetErrorWriter(w).SetLevel(slog.AlwaysLevel)
+			setFormat(nl, f)
+			lg = nl
+			derived = "New(name, conflicting option, option)"
+			c.R.Add("cases_through_New_with_conflicting_options", 1)
+		}
 		ts := c16instant(r, zones)
-		evs := capture(log, func() { lg.WriteThru(bg, slog.InfoLevel, ts, thePC, "tsprobe", nil) })
-		desc := map[string]any{"set_form": setForm, "derived": derived, "earlier_record_under": earlier, "after_saveflags_window": window, "format": f.String(), "flags": flagNames(fl), "utc_mode": []string{"unset", "local (SetUTCMode(false))", "utc"}[utc], "logger_layout": layout, "instant": ts.Format(time.RFC3339Nano), "zone": ts.Location().String()}
+		viaHandler := r.P(15)
+		evs := capture(log, func() {
+			if viaHandler {
+				// the same instant through the log/slog adapter built on this logger (options: keep format and level)
+				h := slog.NewSlogHandler(lg, &slog.HandlerOptions{NoColor: f != FColor, JSON: f == FJSON, NoSource: true, Level: slog.PanicLevel})
+				rec := stdslog.NewRecord(ts, stdslog.LevelInfo, "tsprobe", 0)
+				_ = h.Handle(bg, rec)
+				return
+			}
+			lg.WriteThru(bg, slog.InfoLevel, ts, thePC, "tsprobe", nil)
+		})
+		desc := map[string]any{"through_log_slog_handler": viaHandler, "set_form": setForm, "derived": derived, "earlier_record_under": earlier, "after_saveflags_window": window, "format": f.String(), "flags": flagNames(fl), "utc_mode": []string{"unset", "local (SetUTCMode(false))", "utc"}[utc], "logger_layout": layout, "instant": ts.Format(time.RFC3339Nano), "zone": ts.Location().String()}
 		if len(evs) != 1 {
 			c.R.Violation(idx, "one-write", "C16/one-write", fmtEvents(evs), desc)
 			return
